@@ -506,6 +506,8 @@ PPL::PIP_Problem::ascii_load(std::istream& s) {
     return false;
   }
 
+  // The loaded constraints replace those of *this.
+  input_cs.clear();
   Constraint c(Constraint::zero_dim_positivity());
   for (dimension_type i = 0; i < input_cs_size; ++i) {
     if (!c.ascii_load(s)) {
